@@ -728,6 +728,9 @@ func (v *Verifier) heapFrameFormula(st *State, k string) *Term {
 			}
 			for _, d := range v.eng.leafDescs(t.HeapElem) {
 				if sliceHeapKey(t.HeapElem, d) == k {
+					if t.Any {
+						return nil // wildcard: every array of this element type may change
+					}
 					cov = append(cov, c.And(c.Eq(r, t.Ref), v.iLe(t.Lo, j), v.iLt(j, t.Hi)))
 					break
 				}
@@ -742,6 +745,9 @@ func (v *Verifier) heapFrameFormula(st *State, k string) *Term {
 		}
 		for _, d := range v.eng.leafDescs(t.ObjSh) {
 			if objHeapKey(t.ObjSh, d) == k {
+				if t.Any {
+					return nil // wildcard: every object of this type may change
+				}
 				cov = append(cov, c.Eq(r, t.Ref))
 			}
 		}
@@ -765,7 +771,7 @@ func (v *Verifier) checkVacuity(name string, entryPC []*Term) string {
 		return "precondition trivially satisfiable"
 	}
 	script := v.eng.C.Script(entryPC, nil, "", false)
-	res := Solve(script, "", "", workDir(), sanitize(name)+".vacuity", 5, []string{"z3-5.1", "cvc5"})
+	res := Solve(script, "", "", "", "", workDir(), sanitize(name)+".vacuity", 5, []string{"z3-5.1", "cvc5"})
 	switch res.Status {
 	case "sat":
 		return "precondition satisfiable (" + res.Solver + ")"
@@ -808,6 +814,15 @@ func dischargeAll(reps []*FuncReport, timeoutS int, par int, keepDir string) {
 			jobs = append(jobs, job{rep, o, r})
 		}
 	}
+	type retryJob struct {
+		o       *Obligation
+		r       *OblReport
+		scripts [5]string
+		base    string
+		to      int
+	}
+	var retries []retryJob
+	var retryMu sync.Mutex
 	var wg sync.WaitGroup
 	sem := make(chan struct{}, par)
 	for i := range jobs {
@@ -823,9 +838,10 @@ func dischargeAll(reps []*FuncReport, timeoutS int, par int, keepDir string) {
 			assume = append(append([]*Term{}, assume...), extra...)
 			j.o.Instances = len(extra)
 		}
-		// global facts (initial-heap axioms, bridge-term facts) - after instantiation, which may add some
+		// global facts (initial-heap axioms, bridge-term facts) - after instantiation, which may add some;
+		// bridge facts only for the bridge terms of this query
 		if len(j.o.ctx.Axioms) > 0 {
-			assume = append(append([]*Term{}, j.o.ctx.Axioms...), assume...)
+			assume = append(append([]*Term{}, j.o.ctx.relevantAxioms(append(append([]*Term{}, assume...), j.o.Goal))...), assume...)
 		}
 		hasQ := false
 		var rel []*Term
@@ -856,6 +872,30 @@ func dischargeAll(reps []*FuncReport, timeoutS int, par int, keepDir string) {
 				bvScript = j.o.ctx.Script(as, g, "", false)
 			}
 		}
+		// fourth variant: quantifier-free query with a small, goal-directed instance set
+		goalScript := ""
+		coneScript := ""
+		if hasQ && !containsQuant(j.o.Goal) {
+			base := append(append([]*Term{}, j.o.ctx.Axioms...), j.o.Assume...)
+			gdInst := j.o.ctx.preInstantiateOpt(base, j.o.Goal, 3, 24, true)
+			gdRoots := append(append(append([]*Term{}, j.o.Assume...), gdInst...), j.o.Goal)
+			base = append(append([]*Term{}, j.o.ctx.relevantAxioms(gdRoots)...), j.o.Assume...)
+			var gd []*Term
+			for _, a := range append(base, gdInst...) {
+				if r := j.o.ctx.relaxAssumption(a); r != nil && !r.IsTrue() {
+					gd = append(gd, r)
+				}
+			}
+			if len(gd) < len(rel) {
+				goalScript = j.o.ctx.Script(gd, j.o.Goal, "", true)
+			}
+			if cone := coneOfInfluence(gd, j.o.Goal, coneDepth); len(cone) < len(gd) {
+				coneScript = j.o.ctx.Script(cone, j.o.Goal, "", true)
+				if os.Getenv("GOVC_DEBUG") == "3" {
+					fmt.Fprintf(os.Stderr, "cone %s: %d -> %d -> %d\n", j.o.Name, len(rel), len(gd), len(cone))
+				}
+			}
+		}
 		script := j.o.ctx.Script(assume, j.o.Goal, "", true)
 		j.o.Script = script
 		j.o.RelaxedScript = relaxedScript
@@ -868,7 +908,7 @@ func dischargeAll(reps []*FuncReport, timeoutS int, par int, keepDir string) {
 		go func() {
 			defer wg.Done()
 			defer func() { <-sem }()
-			res := Solve(script, relaxedScript, bvScript, workDir(), base, to, j.o.Solvers)
+			res := Solve(script, relaxedScript, bvScript, goalScript, coneScript, workDir(), base, to, j.o.Solvers)
 			j.o.Result = &res
 			j.r.Solver = res.Solver
 			j.r.Seconds = res.Seconds
@@ -884,6 +924,9 @@ func dischargeAll(reps []*FuncReport, timeoutS int, par int, keepDir string) {
 				if res.Candidate != "" {
 					j.r.Detail += "\ncandidate counterexample (model of the query with quantified assumptions instantiated, not confirmed):\n" + truncate(res.Candidate, 3000)
 				}
+				retryMu.Lock()
+				retries = append(retries, retryJob{j.o, j.r, [5]string{script, relaxedScript, bvScript, goalScript, coneScript}, base, to})
+				retryMu.Unlock()
 			}
 			if keepDir != "" && (j.r.Status != "discharged" || os.Getenv("GOVC_KEEPALL") != "") {
 				os.MkdirAll(keepDir, 0o755)
@@ -892,6 +935,45 @@ func dischargeAll(reps []*FuncReport, timeoutS int, par int, keepDir string) {
 		}()
 	}
 	wg.Wait()
+	// Second chance for undecided obligations (timeout / unknown, no model): the first pass runs
+	// many solver processes at once, so on a loaded machine a query that normally takes seconds can
+	// miss its limit. Each is re-run with little competition and six times the limit (at least 60 s)
+	// before it counts as failed. A "sat" answer is never retried.
+	if len(retries) > 0 && os.Getenv("GOVC_NORETRY") == "" {
+		sort.Slice(retries, func(a, b int) bool { return retries[a].base < retries[b].base })
+		if len(retries) > 12 {
+			retries = retries[:12] // a wholesale failure is not a load problem
+		}
+		var wg2 sync.WaitGroup
+		sem2 := make(chan struct{}, 3)
+		for i := range retries {
+			rj := retries[i]
+			wg2.Add(1)
+			sem2 <- struct{}{}
+			go func() {
+				defer wg2.Done()
+				defer func() { <-sem2 }()
+				to := rj.to * 6
+				if to < 60 {
+					to = 60
+				}
+				res := Solve(rj.scripts[0], rj.scripts[1], rj.scripts[2], rj.scripts[3], rj.scripts[4], workDir(), rj.base+".retry", to, rj.o.Solvers)
+				if res.Status == "unsat" {
+					rj.o.Result = &res
+					rj.r.Status = "discharged"
+					rj.r.Solver = res.Solver + "+retry"
+					rj.r.Seconds = res.Seconds
+					rj.r.Detail = ""
+				} else if res.Status == "sat" {
+					rj.o.Result = &res
+					rj.r.Status = "failed-model"
+					rj.r.Solver = res.Solver
+					rj.r.Detail = truncate(res.Output, 4000)
+				}
+			}()
+		}
+		wg2.Wait()
+	}
 	// reachability covers: a function (case) all of whose return paths have a refutable path
 	// condition proves everything vacuously
 	for _, rep := range reps {
@@ -930,7 +1012,7 @@ func dischargeAll(reps []*FuncReport, timeoutS int, par int, keepDir string) {
 						rel = append(rel, r)
 					}
 				}
-				res := Solve(o.ctx.Script(assume, o.Goal, "", true), o.ctx.Script(rel, o.Goal, "", true), "", workDir(), sanitize(fmt.Sprintf("%s.p%d", o.Name, o.Path)), 3, nil)
+				res := Solve(o.ctx.Script(assume, o.Goal, "", true), o.ctx.Script(rel, o.Goal, "", true), "", "", "", workDir(), sanitize(fmt.Sprintf("%s.p%d", o.Name, o.Path)), 3, nil)
 				if res.Status != "unsat" {
 					allRefuted = false
 					break
@@ -977,6 +1059,17 @@ func fnv32(b []byte) uint32 {
 	}
 	return h
 }
+
+var coneDepth = func() int {
+	if s := os.Getenv("GOVC_CONE"); s != "" {
+		n := 0
+		fmt.Sscanf(s, "%d", &n)
+		if n > 0 {
+			return n
+		}
+	}
+	return 2
+}()
 
 var instRounds = func() int {
 	if s := os.Getenv("GOVC_ROUNDS"); s != "" {
